@@ -19,7 +19,12 @@ SUP = {'ITML_Supervised': ITML, 'MMC_Supervised': MMC, 'SDML_Supervised': SDML, 
 def base_fit(name, wiring, params, X, y, seed):
     """fit the weakly supervised base algorithm on constraints derived as the model's wiring says"""
     c = Constraints(y)
-    common = {k: v for k, v in params.items() if k not in ('n_constraints', 'n_chunks', 'chunk_size', 'k_genuine', 'k_impostor', 'weights')}
+    # the base learner runs with the supervised estimator's own (resolved) hyper-parameters: the two classes do not
+    # share all defaults (MMC(tol=1e-3) vs MMC_Supervised(tol=1e-6))
+    resolved = zoo.CLASSES[name](**params).get_params()
+    base_names = set(SUP[name]().get_params())
+    common = {k: v for k, v in resolved.items() if k in base_names and not (isinstance(v, str) and v == 'deprecated')
+              and k not in ('n_constraints', 'n_chunks', 'chunk_size', 'k_genuine', 'k_impostor', 'weights')}
     with warnings.catch_warnings():
         warnings.simplefilter('ignore')
         if wiring[0] == 'pairs':
@@ -55,13 +60,15 @@ def run(R, tier, seed, driver_ok):
     R.rule = ('6 supervised estimators × n_constraints (given / default) / n_chunks / chunk_size / k_genuine / k_impostor × integer seeds × '
               'label vectors with and without unknown (−1) labels at arbitrary positions. case = (estimator, parameters, labels, seed); all non-trivial')
     R.assumptions = ['the base solver is treated as an arbitrary function; equality of metrics to 1e-9 relative']
-    for rep in range(reps):
-        for name in SUP:
+    extra_dup = 8 if tier == 'quick' else 40      # further duplicate-rows cases for the pairs learners (cheap, and the
+    #                                               stream in which the points of the pairs and the rows of X part ways)
+    for rep in range(reps + extra_dup):
+        for name in (SUP if rep < reps else ['ITML_Supervised', 'MMC_Supervised', 'LSML_Supervised']):
             d = int(rng.randint(2, 5))
             n_classes = int(rng.randint(2, 4))
             X, y = zoo.blobs(rng, d, n_classes, max(6, int(np.ceil(4 * d / n_classes)) + 2))
             unknown = rep % 2 == 1
-            dup_stream = rep % 3 == 2
+            dup_stream = rep % 3 == 2 or rep >= reps
             if dup_stream:
                 # repeated feature vectors (bootstrap-like data): a few samples share their coordinates
                 src = rng.choice(len(X), size=3, replace=False)
